@@ -2,6 +2,7 @@ import NimaVerif.Model.SExp
 import NimaVerif.Drv.Names
 import NimaVerif.Drv.Edit
 import NimaVerif.Drv.Cli
+import NimaVerif.Drv.Paths
 /-!
 Line-protocol driver: one request per line on stdin, one reply per line on stdout.
 Each topic has its own handler module `NimaVerif/Drv/<Topic>.lean` exporting
@@ -13,7 +14,8 @@ open Nima
 def handlers : List (SExp → Option SExp) := [
   Nima.Drv.Names.handle,
   Nima.Drv.Edit.handle,
-  Nima.Drv.Cli.handle
+  Nima.Drv.Cli.handle,
+  Nima.Drv.Paths.handle
 ]
 
 def dispatch (req : SExp) : SExp :=
